@@ -272,8 +272,10 @@ static int mode_direct(int cases, int max_nr, int max_nt)
         for (int strat = 0; strat < 2; strat++)
             for (int threads : {1, 4}) {
                 std::vector<double> b(N);
-                int kind = rng.range(0, 2);
+                int kind = rng.range(0, 3);
                 for (auto& v : b) v = kind == 0 ? rng.uniform(-1, 1) : std::ldexp(rng.uniform(-1, 1), rng.range(-40, 40)); // huge dynamic range
+                // a right-hand side that is tiny (its squared norm underflows to zero) or huge as a whole: the solve is linear, the scale must not matter
+                if (kind == 3) { const double sc = rng.pick(std::vector<double>{1e-170, 1e-200, 1e-250, 1e120}); for (auto& v : b) v = rng.uniform(-1, 1) * sc; }
                 Vector<double> bv = from_rowmajor(g, b);
                 std::string mat;
                 // give: the scatter assembly is dumped for the sequential branch (threads == 1) AND for the 3-coloured parallel branch (threads == 4)
